@@ -130,9 +130,9 @@ pub fn render(lines: &[Line], idx: IdxStyle, pass: Pass) -> String {
         }
         if is_contig {
             ci += 1;
-        } else if !is_pass || idx == IdxStyle::None || true {
-            // the PASS line takes a slot in the line count only for the permutation arithmetic
-            di += if is_pass { 0 } else { 1 };
+        } else if !is_pass {
+            // the PASS line counts in `n_dict` (permutation arithmetic) but has its own fixed IDX
+            di += 1;
         }
     }
     text.push_str("#CHROM\tPOS\tID\tREF\tALT\tQUAL\tFILTER\tINFO\tFORMAT\ts0\ts1\n");
@@ -223,4 +223,33 @@ pub fn records() -> Vec<(&'static str, Rec)> {
 
 pub fn dict_of(text: &str) -> Dict {
     dict_from_text(text).expect("foreign header text has a consistent dictionary")
+}
+
+/// "Header edited between read and write": removes the unused INFO definition and puts a new one
+/// in front of all others.
+pub fn edit_header(h: &mut noodles_vcf::Header) {
+    use noodles_vcf::header::record::value::{
+        Map,
+        map::{Info, info},
+    };
+    h.infos_mut().shift_remove("UNUSED");
+    let mut new = Map::<Info>::new(info::Number::Unknown, info::Type::Integer, "NEW");
+    // a header that uses explicit IDX needs one for the new line too (an unused slot)
+    let explicit = h.infos().values().any(|m| m.idx().is_some())
+        || h.filters().values().any(|m| m.idx().is_some())
+        || h.formats().values().any(|m| m.idx().is_some());
+    if explicit {
+        *new.idx_mut() = Some(90);
+    }
+    h.infos_mut().shift_insert(0, "NEW".to_string(), new);
+}
+
+/// A BCF stream made by hand: magic, the given header text, the given record bytes.
+pub fn assemble_bcf(text: &str, record_bytes: &[u8]) -> Vec<u8> {
+    let mut out = b"BCF\x02\x02".to_vec();
+    out.extend_from_slice(&((text.len() + 1) as u32).to_le_bytes());
+    out.extend_from_slice(text.as_bytes());
+    out.push(0);
+    out.extend_from_slice(record_bytes);
+    out
 }
